@@ -218,10 +218,15 @@ def eval_escape_family(desc):
     for n in sizes:
         text = F.escape_text(kinds, quote, prefix, shape, n)
         small = 0 < n <= F.ESCAPE_SMALL[-1]
+        # The property speaks of parse(): the parser's error callback raises, so
+        # lexing ends at the first lexer error.  (The stand-alone lexer with a
+        # non-raising callback re-scans the rest of the text after every error
+        # - quadratic, but outside the property; lead's triage of a thorough-tier
+        # alarm on the unchanged tree.)
         if small:
-            r = F.lex_time_small(text)
+            r = F.lex_time_small(text, stop_at_error=True)
         else:
-            r = F.lex_time(text, repeat=3, stop_at_error=n < 0)
+            r = F.lex_time(text, repeat=3, stop_at_error=True)
         if r[0] == "timeout":
             rows.append([n, len(text), None])
             return ("slow", f"size {n} ({len(text)} characters): no result within {r[2]} s",
@@ -452,7 +457,7 @@ def run(tier):
             lex_rerun.append(r["name"])
             lex_results[i] = eval_lexer_family(r["name"])
     for i, row in enumerate(esc_res):
-        if row[1] != "linear" and row[3] < CLEAR_EXCESS:
+        if row[1] != "linear":  # always: a single spike under load must never count
             lex_rerun.append(escape_family_name(esc[i]))
             esc_res[i] = _escape_work([(i, esc[i])])[0]
     t_ph.append(time.time())
